@@ -250,3 +250,17 @@ class PList:
 
     def __repr__(self):
         return "PList(n=%s, +%d)" % (self.n, len(self.items))
+
+
+def bytes_join(sep, parts):
+    """model of bytes.join for proxy byte strings (identical to bytes.join on concrete parts)"""
+    from .sym import SymBytes
+    parts = list(parts)
+    if all(isinstance(p, (bytes, bytearray)) for p in parts):
+        return sep.join(parts)
+    for p in parts:
+        if hasattr(p, "__pyvc_join_all__"):
+            if len(parts) != 1 or sep:
+                raise Unsupported("join of a generic element with other parts")
+            return p.__pyvc_join_all__()
+    return SymBytes.of(sep).join(parts)
